@@ -164,6 +164,7 @@ class Doc:
                                       m["name"], ", ".join(self.field_text(fi, a) for a in m["args"]))
                 if m.get("throws"):
                     s += " throws (%s)" % ", ".join(self.field_text(fi, a) for a in m["throws"])
+                s += self.annos_text(m.get("annos"))
                 ms.append(s + ",")
             ext = ""
             if it.get("extends"):
@@ -219,10 +220,12 @@ class Doc:
         for (fi, name), i in sorted(ids.items(), key=lambda kv: kv[1]):
             it = self.find(fi, name)
             index.append((i, fi, it))
+            # a field wrapped in Arc (pilota.rust_wrapper_arc) is ty::Arc(Path), not ty::Path: no edge of the type graph
+            ftya = lambda f: "o" if dict(f.get("annos") or []).get("pilota.rust_wrapper_arc") else fty(f["ty"])
             if it["kind"] in ("struct", "exception"):
-                parts.append("%d=M:%s" % (i, ",".join(fty(f["ty"]) for f in it["fields"])))
+                parts.append("%d=M:%s" % (i, ",".join(ftya(f) for f in it["fields"])))
             elif it["kind"] == "union":
-                parts.append("%d=E:%s" % (i, "/".join(fty(f["ty"]) for f in it["fields"])))
+                parts.append("%d=E:%s" % (i, "/".join(ftya(f) for f in it["fields"])))
             elif it["kind"] == "enum":
                 parts.append("%d=E:%s" % (i, "/".join("" for _ in it["members"])))
             else:
@@ -243,7 +246,7 @@ class Doc:
                 elif it["kind"] == "enum":
                     out.append((lab, "constvariant", [(m, None) for m, _ in it["members"]]))
                 elif it["kind"] == "service":
-                    out.append((lab, "method", [(m["name"], None) for m in it["methods"]]))
+                    out.append((lab, "method", [(m["name"], dict(m.get("annos") or []).get("pilota.name")) for m in it["methods"]]))
                     for m in it["methods"]:
                         out.append((lab + "." + m["name"], "arg", [(a["name"], None) for a in m["args"]]))
         return out
@@ -619,6 +622,9 @@ class ThriftGen:
                 en = Names(r, self.exotic)
                 for i, (fj, e) in enumerate(r.sample(excs, min(len(excs), r.choice([1, 2])))):
                     m["throws"].append(dict(id=i + 1, name=en.fresh(), ty=("ref", fj, e["name"]), req="", default=None, annos=[]))
+            if self.annotations and r.random() < 0.15:
+                # pilota.name on a function, whatever else it has (throws, oneway, colliding siblings)
+                m["annos"] = [("pilota.name", "renamed_fn_%d" % len(methods))]
             methods.append(m)
         ext = None
         svcs = self.visible(fi, ("service",))
@@ -830,6 +836,26 @@ def collision_include_docs():
     blk = collision_block(0, "", (2, "ReqX"))
     d.files[0]["items"] += [x for x in blk if x["kind"] == "service"][:1] + [x for x in blk if x["kind"] != "service"] + [x for x in blk if x["kind"] == "service"][1:]
     return out
+
+
+ANNO_LIB = 'namespace rs an.lib\n\nstruct Leaf {\n  1: required i64 v (pilota.name = "value64"),\n} (pilota.name = "LeafNode")\n\nexception Denied {\n  1: string why,\n  2: optional i32 code (pilota.name = "status_code"),\n} (pilota.name = "AccessDenied")\n\nenum Level {\n  low = 1 (pilota.name = "Lowest"),\n  high = 2,\n} (pilota.name = "Severity")\n\nconst i32 LIMIT = 7 (pilota.name = "HARD_LIMIT")\n\nservice Base {\n  Leaf fetch(1: i32 id (pilota.name = "ident")) throws (1: Denied d) (pilota.name = "load"),\n  void ping(),\n} (pilota.name = "BaseService")\n'
+
+ANNO_MAIN = 'namespace rs an.top\ninclude "lib.thrift"\n\ntypedef map<set<i32>, string> Index (pilota.rust_type = "btree")\ntypedef string Label (pilota.name = "Caption")\ntypedef list<lib.Leaf> Leaves (pilota.rust_wrapper_arc = "true")\n\nenum Color {\n  red = 1 (pilota.name = "Crimson"),\n  green = 2 (pilota.name = "dark_green"),\n  blue,\n} (pilota.name = "Paint")\n\nconst i32 MAX = 10 (pilota.name = "UPPER_BOUND")\nconst map<i32, list<string>> TABLE = {1: ["a"], 2: []} (pilota.rust_type = "btree")\nconst Color FAVOURITE = Color.red (pilota.name = "FAV")\n\nstruct Item {\n  1: required string id (pilota.name = "ident", pilota.rust_type = "string"),\n  2: optional string note (pilota.rust_type = "string"),\n  3: binary raw (pilota.rust_type = "vec"),\n  4: map<i32, double> weights = {1: 1.5} (pilota.rust_type = "btree", pilota.name = "weight_table"),\n  5: set<string> tags = ["x", "y"] (pilota.rust_type = "btree"),\n  6: optional lib.Leaf leaf (pilota.rust_wrapper_arc = "true", pilota.name = "shared_leaf"),\n  7: list<lib.Leaf> leaves (pilota.rust_wrapper_arc = "true"),\n  8: map<string, lib.Leaf> by_name (pilota.rust_wrapper_arc = "true", pilota.rust_type = "btree"),\n  9: Color color = Color.green (pilota.name = "paint"),\n  10: i32 limit = MAX (pilota.name = "cap"),\n  11: i32 lib_limit = lib.LIMIT,\n  12: optional Item next (pilota.name = "successor"),\n  13: string fooBar (pilota.name = "foo_bar"),\n  14: string foo_bar (pilota.name = "fooBar"),\n  15: string plain = "dflt" (pilota.serde_attribute = "#[serde(default)]"),\n  16: lib.Level level = lib.Level.low,\n  17: Label label = "cap" (pilota.name = "caption"),\n} (pilota.name = "StockItem", pilota.serde_attribute = "#[serde(rename_all = \\"camelCase\\")]")\n\nunion Choice {\n  1: Item item (pilota.name = "Stock"),\n  2: string text (pilota.rust_type = "string", pilota.name = "free_text"),\n  3: lib.Leaf leaf (pilota.rust_wrapper_arc = "true"),\n} (pilota.name = "Selection")\n\nexception Conflict {\n  1: string why (pilota.name = "reason"),\n} (pilota.name = "WriteConflict")\n\nexception Missing {\n  1: string key,\n}\n\nservice Store extends lib.Base {\n  Item put(1: Item item (pilota.name = "stock"), 2: i32 ttl) throws (1: Conflict c, 2: lib.Denied d) (pilota.name = "upsert"),\n  oneway void hint(1: string key) (pilota.name = "prefetch"),\n  Item getItem(1: string key) throws (1: Missing m) (pilota.name = "get_item"),\n  list<Item> scan(1: Color color (pilota.name = "paint")) (pilota.name = "scan_all"),\n  void ScanAll(),\n  Item (pilota.rust_wrapper_arc = "true") shared(1: Item item (pilota.rust_wrapper_arc = "true")) throws (1: Missing m) (pilota.name = "shared_item"),\n  Choice choose(1: Choice c) throws (1: Conflict c2),\n  void plain() throws (1: Missing m),\n} (pilota.name = "Warehouse")\n\nservice store {\n  Item put(1: Item item) throws (1: Conflict c) (pilota.name = "Upsert"),\n}\n'
+
+
+def annotation_docs():
+    """directed documents (raw text, no AST): the four pilota annotations on every position the grammar allows them -- pilota.name on
+    structs / exceptions / unions / enums / enum members / typedefs / consts / services / functions / arguments / fields / variants,
+    pilota.rust_type (string, vec, btree) on fields, variants, typedefs and consts, pilota.rust_wrapper_arc on fields (plain, list, map
+    value), variants, typedefs, a return type and an argument, pilota.serde_attribute on a field and a struct -- each combined with the
+    other features of the same item: function x throws (own and included exception, renamed exceptions) / oneway / a renamed function
+    whose name equals another function after conversion / `extends` of a renamed service of the included file / case-colliding services;
+    field x default (literal, enum member of a renamed enum, renamed const, const of the included file) / optional / recursion /
+    swapped names; const x reference from a default.  -> [(name, files, entry)]"""
+    only_main = ANNO_MAIN.replace('include "lib.thrift"\n', "")
+    return [("anno_include", {"main.thrift": ANNO_MAIN, "lib.thrift": ANNO_LIB}, "main.thrift"),
+            # the included file alone as the entry (a renamed function with `throws` in a file without includes)
+            ("anno_single", {"main.thrift": ANNO_LIB}, "main.thrift")]
 
 
 def gen_thrift_doc(rng, **kw):
@@ -1064,6 +1090,53 @@ def c17_dedup_corpus(rng, n_modules=10):
     files["other.thrift"] = ("namespace rs api.back\n" + inc(["a.thrift"] + mods[half:]) + "\n" + base("other") + "\nservice Back {\n" +
                              "".join("  %s.BaseResp get_%s(1: BaseResp own),\n" % (stem(f), stem(f)) for f in mods[half:]) + "}\n")
     return files, ["main.thrift", "other.thrift"], ["BaseResp", "Empty", "BaseReq"]
+
+
+def c17_touch_corpus(rng, n_files=5, items=100, share=0.4):
+    """corpus for ignore_unused (the Builder's default) + Builder::touch: n_files library files of `items` items each (structs that
+    refer to a few later items of their file, enums, typedefs), two of them sharing one namespace; a small entry file whose service
+    uses a handful of items, so that without `touch` almost nothing is emitted; `share` of every library file's items are touched
+    (touch list in file order, one entry per file and a second entry for file 0 -- "a file touched from several places").  The used
+    items are a fraction of all items, in several files: the situation in which the iteration order of the set of used items (a
+    function of its insertion history) becomes visible in the emission order.
+    -> (files, entries, [(file, [names])])"""
+    r = rng
+    files, touches = {}, []
+    nss = ["tc.shared", "tc.shared", "tc.lib.deep", "tc.type", "tc.z9", "tc.lib"]
+    for fi in range(n_files):
+        fn = "t%d.thrift" % fi
+        names = ["T%dItem%d" % (fi, k) for k in range(items)]
+        out = ["namespace rs %s" % nss[fi % len(nss)], ""]
+        for k, nm in enumerate(names):
+            q = r.random()
+            if q < 0.15:
+                out.append("enum %s {\n  A%d = 0,\n  B%d = %d,\n}\n" % (nm, k, k, k + 1))
+            elif q < 0.22:
+                out.append("typedef list<i64> %s\n" % nm)
+            else:
+                fields = ["  1: i32 id_%d," % k, "  2: optional string note,"]
+                later = names[k + 1:k + 12]
+                for j in range(r.choice([0, 0, 1, 1, 2])):
+                    if later:
+                        fields.append("  %d: optional %s ref_%d," % (3 + j, r.choice(later), j))
+                out.append("struct %s {\n%s\n}\n" % (nm, "\n".join(fields)))
+        files[fn] = "\n".join(out)
+        picked = sorted(r.sample(range(items), int(items * share)))
+        if fi == 0:
+            half = len(picked) // 2
+            touches.append((fn, [names[k] for k in picked[:half]]))
+            touches.append(("t1.thrift", []))       # placeholder, filled below (keeps the list interleaved)
+            touches.append((fn, [names[k] for k in picked[half:]]))
+        elif fi == 1:
+            touches[1] = (fn, [names[k] for k in picked])
+        else:
+            touches.append((fn, [names[k] for k in picked]))
+    inc = "".join('include "t%d.thrift"\n' % fi for fi in range(n_files))
+    files["main.thrift"] = ("namespace rs tc.api\n" + inc + "\nstruct Req {\n  1: t0.T0Item%d a,\n  2: optional t%d.T%dItem%d b,\n}\n\nservice Front {\n  Req call(1: Req r),\n}\n"
+                            % (items - 1, n_files - 1, n_files - 1, items - 2))
+    files["other.thrift"] = ("namespace rs tc.back\n" + 'include "t1.thrift"\ninclude "t2.thrift"\n' +
+                             "\nservice Back {\n  t1.T1Item%d get(1: t2.T2Item%d q),\n}\n" % (items - 1, items - 3))
+    return files, ["main.thrift", "other.thrift"], touches
 
 
 def c17_proto_corpus(rng, n_top=5, n_nested=6):
